@@ -1,8 +1,11 @@
 package poolsim
 
 import (
+	"encoding/json"
 	"fmt"
 	"os"
+	"os/exec"
+	"path/filepath"
 	"sort"
 	"strconv"
 	"strings"
@@ -68,8 +71,109 @@ func Corpus() []Scenario {
 	}
 }
 
-// Main is the entry point of cmd/c27 and cmd/c28.
+// Main is the entry point of cmd/c27 and cmd/c28. The work is done in a child process so that reports of
+// the race detector (the harness is built with -race) are collected from GORACE's log files and turned
+// into oracle violations with a semantic signature instead of an unexplained non-zero exit.
 func Main(prop string) {
+	if os.Getenv("POOLSIM_CHILD") == "" {
+		parent()
+		return
+	}
+	child(prop)
+}
+
+func parent() {
+	out := ""
+	for i, a := range os.Args {
+		if (a == "-out" || a == "--out") && i+1 < len(os.Args) {
+			out = os.Args[i+1]
+		}
+		if strings.HasPrefix(a, "-out=") {
+			out = a[5:]
+		}
+	}
+	if out == "" {
+		fmt.Fprintln(os.Stderr, "need -out")
+		os.Exit(2)
+	}
+	_ = os.MkdirAll(out, 0o755)
+	old, _ := filepath.Glob(filepath.Join(out, "race.*"))
+	for _, f := range old {
+		_ = os.Remove(f)
+	}
+	cmd := exec.Command(os.Args[0], os.Args[1:]...)
+	cmd.Env = append(os.Environ(), "POOLSIM_CHILD=1", "GORACE=exitcode=0 halt_on_error=0 log_path="+filepath.Join(out, "race"))
+	cmd.Stdout, cmd.Stderr = os.Stdout, os.Stderr
+	err := cmd.Run()
+	code := 0
+	if err != nil {
+		code = 1
+		if ee, ok := err.(*exec.ExitError); ok {
+			code = ee.ExitCode()
+		}
+	}
+	logs, _ := filepath.Glob(filepath.Join(out, "race.*"))
+	var reports []string
+	for _, f := range logs {
+		b, _ := os.ReadFile(f)
+		for _, r := range strings.Split(string(b), "==================") {
+			if strings.Contains(r, "DATA RACE") {
+				reports = append(reports, r)
+			}
+		}
+	}
+	if len(reports) > 0 && code == 0 {
+		raw, err := os.ReadFile(filepath.Join(out, "obs.json"))
+		if err == nil {
+			var obs hx.Obs
+			if json.Unmarshal(raw, &obs) == nil {
+				seen := map[string]bool{}
+				for _, r := range reports {
+					sig := "race:unclassified"
+					if strings.Contains(r, "tdsync.(*Supervisor).Go") && strings.Contains(r, "tdsync.(*Supervisor).Wait") {
+						sig = "race:supervisor-go-vs-close-wait"
+					}
+					if strings.Contains(r, "verifharness/poolsim") && !strings.Contains(r, "github.com/gotd/td/pool.") && !strings.Contains(r, "github.com/gotd/td/tdsync.") {
+						sig = "race:harness"
+					}
+					if obs.Distribution == nil {
+						obs.Distribution = map[string]int{}
+					}
+					obs.Distribution["violation:"+sig]++
+					if seen[sig] {
+						continue
+					}
+					seen[sig] = true
+					lines := strings.Split(strings.TrimSpace(r), "\n")
+					if len(lines) > 40 {
+						lines = lines[:40]
+					}
+					obs.Violations = append(obs.Violations, hx.Violation{Sig: sig, Desc: "race detector: " + firstFrames(r), Shard: -1, Index: 0, Replay: map[string]interface{}{"race_report": lines}})
+				}
+				js, _ := json.MarshalIndent(&obs, "", " ")
+				_ = os.WriteFile(filepath.Join(out, "obs.json"), js, 0o644)
+			}
+		}
+	}
+	os.Exit(code)
+}
+
+// firstFrames summarises a race report: the non-runtime functions of the two accesses.
+func firstFrames(r string) string {
+	var fs []string
+	for _, l := range strings.Split(r, "\n") {
+		l = strings.TrimSpace(l)
+		if strings.HasPrefix(l, "github.com/gotd/td/") && strings.HasSuffix(l, ")") && !strings.Contains(l, "verifharness") {
+			fs = append(fs, strings.TrimPrefix(l, "github.com/gotd/td/"))
+		}
+	}
+	if len(fs) > 6 {
+		fs = fs[:6]
+	}
+	return strings.Join(fs, " <- ")
+}
+
+func child(prop string) {
 	c := hx.Start(prop, "Run.Check_"+prop, 40)
 	T := stepT()
 	oracle := OracleC27
